@@ -665,6 +665,23 @@ func (fr *frame) symIntBinop(op token.Token, x, y value) value {
 		if fr.decide(c.Eq(yt, c.BVConst(0, w)), "div0") {
 			panic(runtimePanic{"integer divide by zero"})
 		}
+		// (k*c) / d and (k*c) % d with constant d dividing constant c, when k*c cannot overflow
+		if yt.IsConst() && xt.Op == "bvmul" && len(xt.Args) == 2 && xb < w-1 {
+			d := int64(yt.U << uint(64-w) >> uint(64-w))
+			for i := 0; i < 2; i++ {
+				cst, oth := xt.Args[i], xt.Args[1-i]
+				if !cst.IsConst() || d <= 0 {
+					continue
+				}
+				cv := int64(cst.U << uint(64-w) >> uint(64-w))
+				if cv > 0 && cv%d == 0 {
+					if op == token.REM {
+						return fromBits(k, 0)
+					}
+					return mkSymInt(c.Mul(oth, c.BVConst(uint64(cv/d), w)), k, xb)
+				}
+			}
+		}
 		switch {
 		case op == token.QUO && sg:
 			return mkSymInt(c.SDiv(xt, yt), k, xb+1)
